@@ -7,6 +7,19 @@ fn main() {
         std::process::exit(2);
     }
     let prop = args[1].clone();
+    if prop == "dbg-sys" {
+        // pverif dbg-sys <stream> <index>
+        let seed = pverif::rng::seed_from_env();
+        let idx: u64 = args[3].parse().unwrap();
+        let spec = match args[2].as_str() {
+            "C02" => pverif::c02::spec_for(seed, idx),
+            "C03" => pverif::c03::spec_for(seed, idx),
+            "C04" => pverif::c04::spec_for(seed, idx),
+            _ => panic!("stream"),
+        };
+        println!("{}", spec.show());
+        return;
+    }
     if prop == "dbg-parse" {
         // pverif dbg-parse '<term>' name:width ...
         let mut ctx = patronus::expr::Context::default();
@@ -47,6 +60,8 @@ fn main() {
     pverif::panics::install();
     let code = std::panic::catch_unwind(std::panic::AssertUnwindSafe(|| match prop.as_str() {
         "C01" => pverif::c01::run(tier, seed, replay),
+        "C02" => pverif::c02::run(tier, seed, replay),
+        "C03" => pverif::c03::run(tier, seed, replay),
         "C04" => pverif::c04::run(tier, seed, replay),
         "C05" => pverif::c05::run(tier, seed, replay),
         "C09" => pverif::c09::run(tier, seed, replay),
